@@ -396,6 +396,9 @@ class BuiltinMixin:
     def dict_method(self, recv, c, name, args, kwargs, st, node):
         if name == '__iter__' and not args:
             yield recv, st
+        elif name in ('tocsc', 'tocsr', 'tocoo') and not args and c.t.args[0].kind == 'tuple':
+            # entry map of a scipy sparse matrix (externals.sp_lil_matrix): format conversion keeps the entries
+            yield recv, st
         elif name == '__len__' and not args:
             yield SV(INT, c.n), st
         elif name == 'get':
